@@ -90,6 +90,17 @@ HAND_TEXTS = [
     ("two-lifetimes-and-a-bystander", "#[derive(::educe::Educe)]\n#[educe(Debug, Clone, PartialEq, Hash, Default)]\n"
                                       "pub struct Ty<'a, 'b, T, U> {\n    pub m: ::core::marker::PhantomData<U>,\n    pub a: ::core::option::Option<&'a T>,\n"
                                       "    pub b: ::core::option::Option<&'b T>,\n    pub n: ::core::option::Option<U>,\n}\n"),
+    # ... where one of the two is `'static`, or elided inside a function pointer
+    ("static-and-named-lifetime", "#[derive(::educe::Educe)]\n#[educe(Debug, Clone, PartialEq, Eq, PartialOrd, Ord, Hash)]\n"
+                                  "pub struct Ty<'a, T: 'static> {\n    pub a: &'a T,\n    pub b: &'static T,\n}\n"),
+    ("static-and-named-lifetime-slices", "#[derive(::educe::Educe)]\n#[educe(Debug, PartialEq, PartialOrd, Clone, Hash)]\n"
+                                         "pub enum Ty<'a, T: 'static> {\n    Local(&'a [T]),\n    Builtin(&'static [T]),\n    Both(::core::option::Option<&'static T>, ::core::option::Option<&'a T>),\n}\n"),
+    ("static-named-and-a-third", "#[derive(::educe::Educe)]\n#[educe(Debug, Clone, PartialEq, Hash)]\n"
+                                 "pub struct Ty<'a, 'b, T: 'static>(pub &'static T, pub &'a T, pub &'b T, pub &'static T);\n"),
+    ("elided-and-named-in-fn-pointers", "#[derive(::educe::Educe)]\n#[educe(Debug, Clone, Hash)]\n"
+                                        "pub struct Ty<'a, T: 'static>(pub fn(&T) -> u8, pub fn(&'a T) -> u8, pub for<'x> fn(&'x T) -> u8, pub fn(&'static T) -> u8);\n"),
+    ("twins-without-parameters-before-a-generic-field", "#[derive(::educe::Educe)]\n#[educe(Debug, Clone, PartialEq, Hash, Default)]\n"
+                                                        "pub struct Ty<'a, 'b, T> {\n    pub first: &'a str,\n    pub second: &'b str,\n    pub marker: ::core::marker::PhantomData<T>,\n}\n"),
     # legal oddities of the item syntax
     ("where-empty", "#[derive(::educe::Educe)]\n#[educe(Debug, Clone, PartialEq, Eq, PartialOrd, Ord, Hash, Default)]\npub struct Ty<T> where {\n    pub a: T,\n    pub b: u8,\n}\n"),
     ("where-empty-tuple", "#[derive(::educe::Educe)]\n#[educe(Debug, Clone, PartialEq, Eq, PartialOrd, Ord, Hash, Default)]\npub struct Ty<T>(pub T, pub u8) where;\n"),
